@@ -31,6 +31,8 @@ func numRep(n int, rep string) reflect.Value {
 	switch rep {
 	case "jsonNumber":
 		return reflect.ValueOf(json.Number(info.Exact))
+	case "jsonNumberE": // another spelling of the same number
+		return reflect.ValueOf(json.Number(info.Exact + "e0"))
 	}
 	var f float64
 	var i int64
